@@ -129,7 +129,8 @@ func reader_scan_PredicateObjectList_Required(r *Decoder, ectx evaluationContext
 	}
 
 	if rs.fn == nil {
-		return readerStack{}, grammar.R_predicateObjectList.Err(r.newOffsetError(cursorioutil.UnexpectedRuneError{Rune: r0.Rune}, cursorio.DecodedRunes{}, r0.AsDecodedRunes()))
+		// r0 was handed back to the buffer by reader_scan_PredicateObjectList: it is not counted in the byte offset
+		return readerStack{}, grammar.R_predicateObjectList.Err(r.newOffsetError(cursorioutil.UnexpectedRuneError{Rune: r0.Rune}, cursorio.DecodedRunes{}, cursorio.DecodedRunes{}))
 	}
 
 	return rs, nil
